@@ -29,7 +29,7 @@ LEVEL_TEXT = ("Schedule search: the only real nondeterminism of the library (set
               "seed and varied; results under different schedules, addresses, interpreters and call histories must be bit-identical.")
 LEVEL_NOTE = "Trusted: rank seam realises every order for <= 8 objects; dump covers every public log; sampling of schedules unless n<=5 in thorough."
 PROBES = ["mode_perm", "mode_plain", "mode_again", "mode_history", "mode_ids", "schedules_compared", "same_step_zero_FF", "same_step_zero_SF",
-          "fresh_interpreter_compared", "history_default_args_call", "history_insert_absence", "global_state_checked"]
+          "fresh_interpreter_compared", "model_structure_compared", "history_default_args_call", "history_insert_absence", "global_state_checked"]
 
 
 def budget(tier):
@@ -154,6 +154,21 @@ def run(spec):
     tags = edge_tags(m)
     ref = one_run(spec, spec.get("ranks"))
     res.steps = ref.rec.n_recorded
+    # a run leaves no hidden state behind: the model itself (every user-built list in its order, every map, every setting)
+    # is after the run what a fresh build of the same model is
+    fresh = B.build(m, spec.get("ranks"))
+    s_fresh = D.structure_dump(fresh.project)
+
+    def model_intact(project, when):
+        diff_ = D.first_diff(s_fresh, D.structure_dump(project))
+        res.count("model_structure_compared")
+        if diff_ is not None:
+            attr = [x for x in diff_[0].strip("/").split("/") if not x.startswith("[")]
+            res.add("model", "C09.run_changed_the_model.%s" % ".".join(a_.split("[")[0] for a_ in (attr[0:1] + attr[2:3])),
+                    "%s the model differs from a fresh build of the same model at %s: %r vs %r" % (when, diff_[0], diff_[1], diff_[2]), None)
+
+    if ref.out.ok:
+        model_intact(ref.project, "after simulate()")
     dref = outcome_dump(ref)
     res.digest = D.digest(dref)
     compared = 0
